@@ -83,6 +83,7 @@ def operand_order_program(rng):
          "fn bump() -> int {\n    set level (+ level 10)\n    return level\n}\nshadow bump { assert (== 1 1) }\n"
          "fn ps(x: int) -> string {\n    (println x)\n    return (int_to_string x)\n}\nshadow ps { assert (== 1 1) }\n"
          "fn add3(a: int, b: int, c: int) -> int {\n    return (+ (* a 100) (+ (* b 10) c))\n}\nshadow add3 { assert (== 1 1) }\n"
+         "fn pair2(a: int, b: int) -> int {\n    return (+ (* a 1000) b)\n}\nshadow pair2 { assert (== 1 1) }\n"
          "fn main() -> int {\n"]
     k = 100
     ops = ["+", "-", "*", "/", "%", "==", "!=", "<", "<=", ">", ">="]
@@ -101,6 +102,12 @@ def operand_order_program(rng):
     L.append("    (println (add3 (p 1) (p 2) (p 3)))\n")
     L.append("    (println (add3 level (bump) level))\n")
     L.append("    (println (add3 (add3 (p 4) 0 (p 5)) (p 6) (add3 (p 7) (p 8) (bump))))\n")
+    # the effect in the LAST argument, everything before it only reads: right-to-left evaluation shows in the values read
+    L.append("    (println (add3 level level (bump)))\n")
+    L.append("    (println (add3 0 level (bump)))\n")
+    L.append("    (println (pair2 level (bump)))\n")
+    L.append("    (println (pair2 (+ level 1) (bump)))\n")
+    L.append("    (println (pair2 (bump) level))\n")
     L.append("    let arr: array<int> = [(p 11), (p 12), (bump), level]\n    (println arr)\n")
     L.append("    (println (at [(p 13), (p 14)] (p 1)))\n")
     L.append("    let mut arr2: array<int> = [1, 2, 3]\n    set arr2 (array_push arr2 (p 15))\n    (println arr2)\n    (array_set arr2 (p 2) (p 16))\n")
@@ -216,6 +223,125 @@ ALIAS_WITNESS = """fn main() -> int {
 }
 shadow main { assert (== 1 1) }
 """
+
+# ------------------------------------------------------------------------------------------------
+# families in "shadowed" form: every function's shadow block prints calls of it, main performs the same calls in the same order.
+# One program therefore exercises the compile-time evaluator, the VM, the native back end and the reference at once.
+
+def guard_program(rng):
+    """if / else-if / else whose then-branch ends in a nested `if c { return e }` (may fall through), returns in every position:
+    exactly one branch of an if statement runs"""
+    fns, calls = [], []
+    fns.append(("pick", "fn pick(a: bool, b: bool) -> int {\n    if a {\n        (println \"then\")\n        if b { return 1 }\n    } else {\n        (println \"else\")\n        return 2\n    }\n    (println \"after\")\n    return 3\n}\n"))
+    for a in ("true", "false"):
+        for b in ("true", "false"):
+            calls.append(("pick", "(pick %s %s)" % (a, b)))
+    t1, t2, t3 = sorted(rng.sample(range(1, 900), 3))
+    fns.append(("grade", "fn grade(n: int) -> int {\n    let mut r: int = 0\n    if (> n %d) {\n        set r (+ r 7)\n        if (> n 100000) { return 99 }\n    } else if (> n %d) {\n        set r (+ r 20)\n        if (== n %d) { return 55 }\n    } else if (> n %d) {\n        return 4\n    } else {\n        set r (+ r 1000)\n    }\n    return r\n}\n" % (t3, t2, t2 + 1, t1)))
+    for n in [0, t1, t1 + 1, t2, t2 + 1, t2 + 2, t3, t3 + 1, 100001]:
+        calls.append(("grade", "(grade %d)" % n))
+    fns.append(("loopguard", "fn loopguard(n: int) -> int {\n    let mut i: int = 0\n    while (< i n) {\n        if (> i 2) {\n            if (== i %d) { return i }\n        } else {\n            (println i)\n        }\n        set i (+ i 1)\n    }\n    return -1\n}\n" % rng.randint(3, 6)))
+    for n in (0, 2, 4, 9):
+        calls.append(("loopguard", "(loopguard %d)" % n))
+    return shadowed(fns, calls)
+
+
+def shortcircuit_shadowed(rng):
+    """and/or inside functions that shadow blocks call: the right operand prints or is a partial operation (guarded index)"""
+    fns = [("noisy", "fn noisy(tag: int, r: bool) -> bool {\n    (println tag)\n    return r\n}\n")]
+    calls = []
+    k = rng.randint(10, 90)
+    fns.append(("both", "fn both(a: bool, b: bool) -> bool {\n    return (and (noisy %d a) (noisy %d b))\n}\n" % (k, k + 1)))
+    fns.append(("either", "fn either(a: bool, b: bool) -> bool {\n    return (or (noisy %d a) (noisy %d b))\n}\n" % (k + 2, k + 3)))
+    fns.append(("plainl", "fn plainl(a: bool, b: bool) -> bool {\n    return (and a (noisy %d b))\n}\n" % (k + 4)))
+    fns.append(("plainr", "fn plainr(a: bool, b: bool) -> bool {\n    return (or a (noisy %d b))\n}\n" % (k + 5)))
+    n = rng.randint(2, 5)
+    fns.append(("firstzero", "fn firstzero(n: int) -> int {\n    let a: array<int> = [%s]\n    let mut i: int = 0\n    while (and (< i %d) (!= (at a i) 0)) {\n        set i (+ i 1)\n    }\n    return i\n}\n"
+                % (", ".join(str(rng.randint(1, 9)) for _ in range(n)), n)))
+    fns.append(("safeat", "fn safeat(i: int) -> bool {\n    let a: array<int> = [4, 5, 6]\n    return (or (>= i 3) (== (at a i) 5))\n}\n"))
+    for f in ("both", "either", "plainl", "plainr"):
+        for a in ("true", "false"):
+            for b in ("true", "false"):
+                calls.append((f, "(%s %s %s)" % (f, a, b)))
+    calls.append(("firstzero", "(firstzero 0)"))
+    for i in (0, 1, 2, 3, 7):
+        calls.append(("safeat", "(safeat %d)" % i))
+    return shadowed(fns, calls)
+
+
+def bytes_program(rng):
+    """string builtins on strings with bytes >= 0x80 (UTF-8 text) and on every ASCII class: a byte is 0..255"""
+    words = ["\u00e9", "na\u00efve", "\u00fcber", "\u65e5\u672c", "plain", "caf\u00e9 au lait", "\u00ff\u0080", "A\u00c5Z"]
+    rng.shuffle(words)
+    fns = [("bytesum", "fn bytesum(s: string) -> int {\n    let mut t: int = 0\n    let mut i: int = 0\n    while (< i (str_length s)) {\n        set t (+ t (char_at s i))\n        set i (+ i 1)\n    }\n    return t\n}\n"),
+           ("firstb", "fn firstb(s: string) -> int {\n    return (char_at s 0)\n}\n"),
+           ("isasc", "fn isasc(s: string) -> bool {\n    let mut i: int = 0\n    while (< i (str_length s)) {\n        if (> (char_at s i) 127) { return false }\n        set i (+ i 1)\n    }\n    return true\n}\n"),
+           ("lenb", "fn lenb(s: string) -> int {\n    return (str_length s)\n}\n")]
+    calls = []
+    for w in words[:5]:
+        for f in ("bytesum", "firstb", "isasc", "lenb"):
+            calls.append((f, '(%s "%s")' % (f, w)))
+    return shadowed(fns, calls)
+
+
+def two_loops_program(rng):
+    """several loops with continue/break one after the other at the same nesting depth, in one function and across functions"""
+    def loop(kind, var, lim, skip, stop):
+        if kind == "for":
+            return ("    for %s in (range 0 %d) {\n        if (== %s %d) { continue }\n        if (== %s %d) { break }\n        set acc (+ (* acc 3) %s)\n    }\n" % (var, lim, var, skip, var, stop, var))
+        return ("    let mut %s: int = 0\n    while (< %s %d) {\n        set %s (+ %s 1)\n        if (== %s %d) { continue }\n        if (== %s %d) { break }\n        set acc (+ (* acc 3) %s)\n    }\n" % (var, var, lim, var, var, var, skip + 1, var, stop + 1, var))
+    fns, calls = [], []
+    for k in range(3):
+        body = ""
+        for j in range(rng.randint(2, 4)):
+            lim = rng.randint(3, 6)
+            body += loop(rng.choice(["for", "for", "while"]), "v%d_%d" % (k, j), lim, rng.randrange(lim), rng.choice([lim + 5, rng.randrange(lim)]))
+            body += "    (println acc)\n"
+        name = "seq%d" % k
+        fns.append((name, "fn %s(x: int) -> int {\n    let mut acc: int = x\n%s    return acc\n}\n" % (name, body)))
+        calls.append((name, "(%s %d)" % (name, rng.randint(0, 5))))
+    return shadowed(fns, calls)
+
+
+def scoping_shadowed(rng):
+    """block-local declarations that shadow an outer variable, inside functions called from shadow blocks: after the block the
+    name means the outer variable again (if / else / while / for bodies, nested)"""
+    a, b, c = rng.randint(1, 9), rng.randint(10, 99), rng.randint(100, 999)
+    fns = [("sh1", "fn sh1(c: bool) -> int {\n    let x: int = %d\n    if c {\n        let x: int = %d\n        (println x)\n    } else {\n        let x: int = %d\n        (println x)\n    }\n    return x\n}\n" % (a, b, c)),
+           ("sh2", "fn sh2(n: int) -> int {\n    let x: int = %d\n    let mut i: int = 0\n    while (< i n) {\n        let x: int = (* i %d)\n        (println x)\n        set i (+ i 1)\n    }\n    return (+ x i)\n}\n" % (a, b)),
+           ("sh3", "fn sh3(n: int) -> int {\n    let mut x: int = %d\n    for k in (range 0 n) {\n        let x: int = (+ k %d)\n        if (> x %d) {\n            let x: int = -1\n            (println x)\n        }\n        (println x)\n    }\n    set x (+ x 1)\n    return x\n}\n" % (a, b, b)),
+           ("sh4", "fn sh4(x: int) -> int {\n    if (> x 0) {\n        let x: int = (* x %d)\n        (println x)\n    }\n    return x\n}\n" % b)]
+    calls = [("sh1", "(sh1 true)"), ("sh1", "(sh1 false)"), ("sh2", "(sh2 0)"), ("sh2", "(sh2 3)"), ("sh3", "(sh3 0)"), ("sh3", "(sh3 3)"), ("sh4", "(sh4 2)"), ("sh4", "(sh4 -2)")]
+    return shadowed(fns, calls)
+
+
+def charclass_program(rng):
+    """character-class builtins at ASCII boundaries and at values that collapse onto them under 32-bit narrowing"""
+    fns = [(f, "fn c_%s(n: int) -> bool {\n    return (%s n)\n}\n" % (f, f)) for f in ("is_digit", "is_alpha", "is_alnum", "is_whitespace", "is_upper", "is_lower")]
+    fns = [("c_" + f, t) for f, t in fns]
+    vals = [47, 48, 57, 58, 64, 65, 90, 91, 96, 97, 122, 123, 32, 9, 10, 0, -1, 255, 256 + 65, 4294967296 + 48, 4294967296 + 97, 4294967296 + 32, -4294967296 + 65, 9223372036854775807]
+    calls = []
+    for f, _ in fns:
+        for v in rng.sample(vals, 8) + [4294967296 + 48, 4294967296 + 97]:
+            calls.append((f, "(%s %d)" % (f, v)))
+    return shadowed(fns, calls)
+
+
+def struct_order_program(rng):
+    """struct definitions in an order that is not the dependency order, by-value nesting, several fields of the same struct type"""
+    defs = ["struct Pt { x: int, y: int }",
+            "struct Seg { a: Pt, b: Pt }",
+            "struct Tri { p: Pt, q: Pt, r: Pt }",
+            "struct Draw { s: Seg, t: Tri, tag: int }",
+            "struct Box { d: Draw, extra: Seg }"]
+    rng.shuffle(defs)
+    x = [rng.randint(1, 9) for _ in range(6)]
+    main = ("fn total(b: Box) -> int {\n    return (+ (+ b.d.s.a.x b.d.s.b.y) (+ (+ b.d.t.p.x b.d.t.r.y) (+ b.extra.b.x b.d.tag)))\n}\nshadow total { assert (== 1 1) }\n"
+            "fn main() -> int {\n    let p: Pt = Pt { x: %d, y: %d }\n    let q: Pt = Pt { x: %d, y: %d }\n    let s: Seg = Seg { a: p, b: q }\n"
+            "    let t: Tri = Tri { p: q, q: p, r: Pt { x: %d, y: %d } }\n    let d: Draw = Draw { s: s, t: t, tag: 7 }\n    let b: Box = Box { d: d, extra: Seg { a: q, b: p } }\n"
+            "    (println (total b))\n    (println b.d.t.q.y)\n    return 0\n}\nshadow main { assert (== 1 1) }\n" % tuple(x))
+    return "\n".join(defs) + "\n" + main
+
 
 ARG_ORDER_WITNESS = """fn p(x: int) -> int {
     (println x)
